@@ -99,6 +99,70 @@ def opt_is_some(o):
     return zs(o.discr == 1)
 
 
+def value_eq(a, b):
+    """Structural equality of two values as a z3 Bool."""
+    a, b = deref_all(a), deref_all(b)
+    if isinstance(a, Opaque) and isinstance(b, Opaque):
+        return z3.BoolVal(a.name == b.name)
+    if isinstance(a, EnumV) and isinstance(b, EnumV):
+        conds = [a.discr == b.discr]
+        for k in set(a.payload) & set(b.payload):
+            inner = [value_eq(x, y) for x, y in zip(a.payload[k], b.payload[k])]
+            if inner:
+                conds.append(z3.Implies(a.discr == k, z3.And(*inner)))
+        return z3.And(*conds)
+    if isinstance(a, Agg) and isinstance(b, Agg):
+        return z3.And(*[value_eq(x, y) for x, y in zip(a.fields, b.fields)]) if a.fields else z3.BoolVal(True)
+    if isinstance(a, (IV, BV)) and isinstance(b, (IV, BV)):
+        return a.t == b.t
+    if isinstance(a, FV) and isinstance(b, FV):
+        return z3.And(a.m == b.m, z3.Or(a.m, a.v == b.v))
+    raise Inconclusive(f'structural equality of {a!r} and {b!r}')
+
+
+def amap_method(engine, st, last, args, dest_ty):
+    from symex import AMapV
+    mp = deref_all(args[0])
+    if last in ('len',):
+        return IV(len(mp.entries))
+    if last == 'is_empty':
+        return BV(len(mp.entries) == 0)
+
+    def locate(key):
+        """-> index of the matching entry on this path, or None (splits the path)."""
+        for i, (k, _) in enumerate(mp.entries):
+            if engine.split_bool(st, zs(value_eq(k, key))):
+                return i
+        return None
+    if last == 'contains_key' or last == 'contains':
+        return BV(locate(args[1]) is not None)
+    if last == 'get':
+        i = locate(args[1])
+        return mk_option(True, RefV(mp, i), ty=dest_ty) if i is not None else mk_option(False, ty=dest_ty)
+    if last == 'insert':
+        key = copy_value(deref_all(args[1])) if isinstance(args[1], RefV) else args[1]
+        i = locate(key)
+        if mp.is_set:
+            if i is None:
+                mp.entries.append((key, UnitV()))
+            return BV(i is None)
+        if i is None:
+            mp.entries.append((key, args[2]))
+            return mk_option(False, ty=dest_ty)
+        old = mp.entries[i][1]
+        mp.entries[i] = (mp.entries[i][0], args[2])
+        return mk_option(True, old, ty=dest_ty)
+    if last in ('iter', 'into_iter'):
+        if mp.is_set:
+            return IterV([RefV(Cell(k), 0) for k, _ in mp.entries])
+        return IterV([Agg('tuple', [RefV(Cell(k), 0), RefV(mp, i)], '') for i, (k, _) in enumerate(mp.entries)])
+    if last == 'keys':
+        return IterV([RefV(Cell(k), 0) for k, _ in mp.entries])
+    if last == 'values':
+        return IterV([RefV(mp, i) for i in range(len(mp.entries))])
+    raise Inconclusive(f'hash container method {last}')
+
+
 def default_for(engine, ty):
     t = engine.env.subst_type(ty.strip())
     if t == 'f64' and getattr(engine.env, 'ieee', False):
@@ -113,6 +177,12 @@ def default_for(engine, ty):
         return mk_option(False, ty=t)
     if t.startswith(('Vec<', 'TinyVec<', 'std::vec::Vec<', 'alloc::vec::Vec<', 'tinyvec::TinyVec<')):
         return VecV([])
+    if re.match(r'^(std::collections::)?(hash_map::)?HashMap<', t) and getattr(engine.env, 'symbolic_maps', False):
+        from symex import AMapV
+        return AMapV()
+    if re.match(r'^(std::collections::)?(hash_set::)?HashSet<', t) and getattr(engine.env, 'symbolic_maps', False):
+        from symex import AMapV
+        return AMapV(is_set=True)
     if t == 'String':
         return Opaque('""')
     d = engine.env.default_of(engine, t)
@@ -692,6 +762,16 @@ def iterator_method(engine, st, method, args, dest_ty):
             return mk_option(False, ty=dest_ty)
         x = it.items.pop(0)
         return mk_option(True, x, ty=dest_ty)
+    if method in ('max', 'min') and all(isinstance(deref_all(x), IV) for x in it.items):
+        if not it.items:
+            return mk_option(False, ty=dest_ty)
+        best = it.items[0]
+        for x in it.items[1:]:
+            a, b = deref_all(best), deref_all(x)
+            take_b = (b.t >= a.t) if method == 'max' else (b.t < a.t)
+            v = IV(zs(z3.If(take_b, b.t, a.t)), a.ty)
+            best = RefV(Cell(v), 0) if isinstance(best, RefV) else v
+        return mk_option(True, best, ty=dest_ty)
     if method == 'sum' and dest_ty and base_type(dest_ty) not in ('f64', 'usize', 'i32', 'i64', 'u64', 'u32', 'isize', ''):
         # a crate type: its own `impl Sum` from the dump (of this crate or of a sibling crate)
         tyb = base_type(dest_ty)
@@ -795,6 +875,8 @@ def std_path(engine, st, name, args, dest_ty):
     # ---- Vec / slices (TinyVec is modelled as a plain sequence: its inline/heap switch is not the subject)
     if first in ('Vec', 'TinyVec') or '<impl [' in name or (len(segs) >= 2 and segs[-2] in ('Vec', 'TinyVec')):
         return seq_method(engine, st, last, args, dest_ty)
+    if ('HashMap' in name or 'HashSet' in name) and args and type(deref_all(args[0])).__name__ == 'AMapV':
+        return amap_method(engine, st, last, args, dest_ty)
     if 'HashMap' in name and last == 'get':
         from symex import MapV
         mp = deref_all(args[0])
